@@ -207,6 +207,7 @@ func init() { reg("c03", checkC03) }
 type C03Seq struct {
 	Key   string  `json:"key"`
 	Items []PItem `json:"items"`
+	ToOut bool    `json:"to_out,omitempty"` // the result is written with -o FILE and read from there
 }
 
 func checkC03Seq(c C03Seq) *Violation {
@@ -216,6 +217,12 @@ func checkC03Seq(c C03Seq) *Violation {
 	}
 	text := Render(ss, canonStyle{})
 	res := crd(text, "text", "conv", "syllable", "--key", c.Key)
+	if c.ToOut {
+		res = Run{Argv: []string{"text", "conv", "syllable", "--key", c.Key, "-o", "@conv.yml"}, Stdin: text, OutArg: "conv.yml"}.Exec()
+		if res.Exit == 0 && len(res.Stdout) == 0 {
+			res.Stdout = res.OutFile
+		}
+	}
 	if v := cleanOutcome(res); v != nil {
 		return v
 	}
@@ -261,6 +268,62 @@ func checkC03Seq(c C03Seq) *Violation {
 
 func init() { reg("c03-seq", checkC03Seq) }
 
+// C03Dbl: a note written with two accidentals (F##, Bbb, E#b, with ASCII or Unicode signs) is outside what the text
+// language writes with one optional sign. Whatever crd does with it, it is "an error, never a different degree":
+// a refusal, or the degree of the note that was written (letter distance, pitch distance with both signs counted).
+type C03Dbl struct {
+	Key    string `json:"key"`
+	Letter string `json:"letter"`
+	Signs  string `json:"signs"`
+	AsBass bool   `json:"as_bass,omitempty"`
+}
+
+func checkC03Dbl(c C03Dbl) *Violation {
+	key := theory.ParseKey(c.Key)
+	n := theory.Note{Letter: c.Letter[0]}
+	for _, r := range c.Signs {
+		if r == '#' || r == '♯' {
+			n.Acc++
+		} else {
+			n.Acc--
+		}
+	}
+	text := c.Letter + c.Signs + "[1]"
+	from := key.Tonic()
+	if c.AsBass {
+		text = key.Tonic().String() + "/" + c.Letter + c.Signs + "[1]"
+	}
+	what := fmt.Sprintf("%q in %s", text, c.Key)
+	res := crd(text+"\n", "text", "conv", "syllable", "--key", c.Key)
+	if v := cleanOutcome(res); v != nil {
+		v.Msg = what + ": " + v.Msg
+		return v
+	}
+	if res.Exit != 0 {
+		return nil
+	}
+	var doc []map[string]any
+	if err := yaml.Unmarshal(res.Stdout, &doc); err != nil || len(doc) != 1 {
+		return vio("conv-output", "%s: cannot read output %q", what, clip(string(res.Stdout), 200))
+	}
+	ch, _ := doc[0]["chord"].(map[string]any)
+	field := "degree"
+	if c.AsBass {
+		field = "base"
+	}
+	got, has := ch[field].(string)
+	if !has {
+		return vio("double-accidental-dropped", "%s: accepted, but no %s is emitted for the doubly altered note", what, field)
+	}
+	if v := checkInterval(what+" (two accidentals)", from, n, got); v != nil {
+		v.Sig = "double-accidental-" + v.Sig
+		return v
+	}
+	return nil
+}
+
+func init() { reg("c03-dbl", checkC03Dbl) }
+
 func TestC03(t *testing.T) {
 	r := rec("C03")
 	defer r.Flush()
@@ -295,6 +358,21 @@ func TestC03(t *testing.T) {
 			}
 		}
 	}
+	di := 0
+	for _, k := range theory.ListedKeys {
+		for _, l := range theory.Letters {
+			for _, sg := range []string{"##", "bb", "#b", "b#", "♯♯", "♭♭", "#♯", "♭b"} {
+				for _, bass := range []bool{false, true} {
+					if myShare(di) && (thorough() || di%4 == 0) {
+						c := C03Dbl{Key: k, Letter: string(l), Signs: sg, AsBass: bass}
+						r.CaseBC(true, "two-accidentals")
+						r.Check(t, checkC03Dbl(c), "c03-dbl", c)
+					}
+					di++
+				}
+			}
+		}
+	}
 	rapid.Check(t, func(t *rapid.T) {
 		key := rapid.SampledFrom(theory.ListedKeys).Draw(t, "key")
 		o := ProgOpts{MaxItems: pick(8, 16), Syllable: true, KeyChanges: 25, Settings: 5, Texts: 5, RestPct: 25, SimpleVals: true}
@@ -307,7 +385,7 @@ func TestC03(t *testing.T) {
 				ps = append(ps, src)
 			}
 		}
-		c := C03Seq{Key: key, Items: ps}
+		c := C03Seq{Key: key, Items: ps, ToOut: coin(t, "to-o-file", 20)}
 		changes, onRest := 0, false
 		for i, p := range ps {
 			if i > 0 && p.Key != nil {
